@@ -95,6 +95,11 @@ static std::string result_line(uint64_t seed, const Plan &plan, const RunResult 
     o.num("nontrivial", r.nontrivial ? 1 : 0).str("case_hash", hex64(r.case_hash));
     if (with_sample || r.v.set) o.str("sample", r.sample);
     if (!r.stats.empty()) { JObj s; for (auto &p : r.stats) s.dbl(p.first, p.second); o.raw("stats", s.done()); }
+    if (!g_other_oracles.empty()) {
+        JObj oo; for (auto &p : g_other_oracles) oo.unum(p.first, p.second); o.raw("other_oracles", oo.done());
+        JObj od; for (auto &p : g_other_oracle_detail) od.str(p.first, p.second.substr(0, 300)); o.raw("other_oracle_detail", od.done());
+        g_other_oracles.clear(); g_other_oracle_detail.clear();
+    }
     if (!r.known.empty()) { std::string a = "["; for (size_t i = 0; i < r.known.size(); i++) a += (i ? ",\"" : "\"") + jesc(r.known[i]) + "\""; o.raw("known", a + "]"); }
     if (with_plan || r.v.set) o.str("plan", (r.v.set && !r.explicit_plan.empty()) ? r.explicit_plan : plan.str());
     return o.done();
@@ -160,6 +165,7 @@ int main(int argc, char **argv) {
         else if (a == "--backend") { static std::string v; v = next(); g_backend = v.c_str(); }
         else if (a == "--variant") { static std::string v; v = next(); g_variant = v.c_str(); }
         else if (a == "--opt") { std::string kv = next(); size_t e = kv.find('='); opts.set(kv.substr(0, e), e == std::string::npos ? "" : kv.substr(e + 1)); }
+        else if (a == "--oracles") { std::string v = next(), tok; std::istringstream is(v); while (std::getline(is, tok, ',')) if (!tok.empty()) g_oracle_filter.push_back(tok); }
         else { fprintf(stderr, "unknown argument %s\n", a.c_str()); return 2; }
     }
     if (mode == "list") { for (auto *s : scenario_list()) printf("%s\n", s->name); return 0; }
